@@ -26,6 +26,9 @@ CHECKS = {
  "C13": dict(technique="runtime monitoring: post-condition monitor on the forwarded request (independent re-read of body, query, headers, cookies), reference default-merge model, and metamorphic re-validation (idempotence) of every accepted request",
    text="All presence subsets of six defaulted parameters x 24 bodies x option sets x body-reading auth callbacks (accepting, rejecting, first alternative rejecting) x GetBody present/absent: after ValidateRequest the body must be readable in full (original bytes, or JSON-equal to the reference default merge when defaults were set), ContentLength/GetBody consistent, untouched parameters unchanged, every defaulted parameter decodable to its default from the forwarded request, and a second validation must pass and change nothing. Exhaustive over the stated finite space.",
    note="Reference merge follows matched oneOf/anyOf branches only; explicit nulls are excluded; byte identity is required under SkipSettingDefaults and after failed validations that did not set defaults. Uses the verif hook.", ref="4 C13"),
+ "C14": dict(technique="runtime monitoring: differential oracle (bare handler vs middleware against recording writers), ValidateResponse as the definition of an invalid response, handler-invocation counter, over all handler scripts up to length 4",
+   text="All 11111 handler scripts of length<=4 over 10 writer operations x 5 request classes x strict on/off x default/custom callbacks x 4 validation option sets through Validator.Middleware, plus the request gate of ValidationHandler (both entry points, 7 request classes incl. unknown and lower-case methods): handler runs iff routed and valid; strict+invalid => 500 and no handler byte/status at the client; strict+valid => exactly the handler's status and body; non-strict => transcript identical to the bare handler; OnErr arguments as specified; no panic. Exhaustive over the stated finite space.",
+   note="Client view = httptest.ResponseRecorder semantics; response headers are outside the statement; in strict mode the handler's status is the first WriteHeader (else 200) because the strict wrapper offers no Flush.", ref="4 C14"),
 }
 NOT_YET = {}
 def main():
